@@ -14,7 +14,11 @@ Lemma edf_move_keeps c f g n s s' r g0 n0 :
   edf_move c f g n s = (s', r) ->
   Inv s' /\ (forall x, r = Ok x -> g0 <> g ->
             py_valid s' f = false /\ d_find (py_cols s' g) n = Some x /\ py_valid s' x = true /\
-            fld_type s' x = fld_type s f /\ fld_data s' x = fld_data s f).
+            fld_type s' x = fld_type s f /\ fld_data s' x = fld_data s f /\
+            (x = next_id s /\ (forall j, py_dfs s' j = py_dfs s j) /\ (forall j, h5_root s' j = h5_root s j) /\
+             py_cols s' g0 = d_del (py_cols s g0) n0 /\ py_cols s' g = d_set (py_cols s g) n (next_id s) /\
+             (forall y, y <> g0 -> y <> g -> py_cols s' y = py_cols s y) /\
+             (forall y, y <> f -> y <> next_id s -> py_valid s' y = py_valid s y))).
 Proof.
   intros FA I L0 H0 L E. unfold edf_move in E. unfold bindM at 1 in E.
   destruct (field_dataframe f s) as [sx r0] eqn:E0. pose proof (field_dataframe_pure _ _ _ _ E0) as ->.
@@ -77,7 +81,13 @@ Proof.
         apply (dk_flds _ _ (ib_df _ (proj2 I3) g L3) n nf2 Fn). }
       cbn [py_cols set_py_valid fld_type fld_data] in *.
       rewrite (G4 g (not_eq_sym NE0)), F7, d_find_set, name_eqb_refl in Fn. inversion Fn; subst nf2.
-      rewrite G6, G7, F11, (F12 NEf). split; reflexivity.
+      rewrite G6, G7, F11, (F12 NEf). split; [reflexivity|]. split; [reflexivity|].
+      split; [reflexivity|]. cbn [py_dfs h5_root py_cols py_valid set_py_valid].
+      split; [intros j; rewrite G2; apply F1|]. split; [intros j; rewrite G1; apply F2|].
+      split; [rewrite G3, Ec0; reflexivity|]. split; [rewrite (G4 g (not_eq_sym NE0)); exact F7|].
+      split.
+      { intros y Y1 Y2. rewrite (G4 y Y1). apply (F6 y Y2). }
+      { intros y Y1 Y2. rewrite fupd_other by exact Y1. rewrite G5. apply (F9 y Y2). }
     + split; [exact I3|]. intros ? X; discriminate X.
 Qed.
 
@@ -203,5 +213,5 @@ Proof.
   unfold bindM in E. destruct (edf_move c f g n' s) as [s1 r1] eqn:E1.
   destruct (edf_move_keeps c f g n' s s1 r1 sg n FA I (catalogued_linked _ _ _ _ IA Hd) Hf (catalogued_linked _ _ _ _ IA Hd') E1) as (I1 & H).
   destruct r1 as [nf|x|e|]; inversion E; subst.
-  destruct (H nf eq_refl NE) as (V & Fn & V2 & T & D). split; [exact V|]. exists nf. auto.
+  destruct (H nf eq_refl NE) as (V & Fn & V2 & T & D & _). split; [exact V|]. exists nf. auto.
 Qed.
